@@ -20,7 +20,7 @@ from ..observe import first_diff, canon
 ID = 'C07'
 LEVEL = 'exploration'
 RUNS = {'quick': 500, 'thorough': 12000}
-WALL = {'quick': 150, 'thorough': 2400}
+WALL = {'quick': 240, 'thorough': 2400}
 RULE = ("per seed one experiment: (perm) up to 6 seeded permutations of the Set* calls of a sampled configuration; (de2) DE2 under "
         "python_map vs serial/reversed/shuffled/threaded(1..8 workers, seeded baton scheduling at seam crossings, optional line-level "
         "pre-emption)/process(dill boundary, isolated RNG) maps; (ensemble) Lattice/Buckshot with NM/Powell members under the same maps "
@@ -36,7 +36,7 @@ LEVEL_TEXT = ("seeded search over Set* permutations and over map schedules (item
               "scheduler at seam crossings and seeded line events, process boundary); trajectories compared field by field")
 LEVEL_NOTE = ("pre-emption granularity is seam crossings plus a seeded subset of source lines of /repo/mystic, not bytecodes; "
               "schedules are sampled, not enumerated")
-RUN_WALL = 150
+RUN_WALL = 400
 OPS_KEY = 'none'
 
 PERM_KNOBS = dict(p_term=0.6, p_limits=0.5, p_midrun_set=0.0, p_solve=0.0, p_finalize=0.0, max_ops=0, p_vector=0.08,
@@ -188,7 +188,11 @@ def run_de2(plan, run, violate, stats):
 def run_ens(plan, run, violate, stats):
     variants = [(None, m) for m in plan['modes']]
     for ms in plan['maps']:
-        for m in plan['modes']: variants.append((ms, m))
+        for m in plan['modes']:
+            # a process-mode map pickles every member out and back per map call: step-wise modes (one map call per
+            # ensemble step) are only run under it when the run is short
+            if ms.get('mode') == 'process' and m != 'solve' and (plan.get('limits') or [99])[0] > 8: continue
+            variants.append((ms, m))
     finals = {}; stepwise = {}
     for vi, (mspec, mode) in enumerate(variants):
         _random.seed(plan['lib_seed']); numpy.random.seed(plan['lib_seed'] % (2 ** 32))
@@ -197,10 +201,14 @@ def run_ens(plan, run, violate, stats):
         b0 = run.ncross
         try:
             run.budget = b0 + 150000          # per variant: a variant that spins is reported, not waited for
-            fin = ensembles.drive(s, peers, plan, run, mode, 400, snaps)
+            G = (plan.get('limits') or [None])[0]
+            run.map_budget = (run.counts['map'] + G + 6) if (G is not None and mspec is not None) else None
+            fin = ensembles.drive(s, peers, plan, run, mode, (G + 6) if G is not None else 400, snaps)
+            run.map_budget = None
         except env.SimCrash:
             raise
         except env.SimHang as e:
+            run.map_budget = None
             violate('trajectory_depends_on_map_schedule', 'ensemble under map %r in mode %s did not finish within %d seam crossings '
                     '(other variants finish in a few thousand)' % (mspec, mode, run.ncross - b0),
                     map=(mspec or {}).get('mode', 'python_map'), mode=mode)
@@ -227,9 +235,10 @@ def run_ens(plan, run, violate, stats):
                 return
     # (b) manual Step loops under different maps: identical at every step
     sw = list(stepwise.items())
+    pub = lambda d_: {k_: v_ for k_, v_ in d_.items() if not k_.startswith('_')}
     for (k1, s1) in sw[1:]:
         for i, (a, b) in enumerate(zip(sw[0][1], s1)):
-            d = first_diff(a, b)
+            d = first_diff(pub(a), pub(b))
             if d:
                 violate('trajectory_depends_on_map_schedule', 'ensemble stepped under map %s differs from %s at step %d: %s'
                         % (k1[1], sw[0][0][1], i + 1, d[:300]), map=k1[1], mode='steps')
